@@ -4,6 +4,7 @@
 From Coq Require Import List NArith ZArith Bool Arith String.
 Import ListNotations.
 Require Import Scan Pos Reader Chunk Comb ParseL PT ParserSafe ParserTerm.
+Require Construct ComposerTotal ParserGrammar.
 
 (* KIND C03_forward_never_crashes_inside_buffer : U *)
 (* Reader.forward over any prefix that lies inside the buffer returns normally (no IndexError) *)
@@ -89,6 +90,39 @@ Example C03_escape_out_of_range_is_scanner_error :
   match snd (scan_all [34; 92; 85; 70; 70; 70; 70; 70; 70; 70; 70; 34]%N) with Scan.ScanErr _ _ _ => True | _ => False end.
 Proof. vm_compute. exact I. Qed.
 
-(* PARTIAL: scanner_total, composer_total and error_marks_inside are not proved.  They are
+(* KIND C03_composer_total : U *)
+(* the composer model (compose_node of Model/Construct.v: node store, anchor table, aliases), in EVERY state - any node store, any
+   anchor table - given the events of ONE grammatical node (any nesting depth, any length) followed by anything, and any fuel above
+   the number of those events: it ends with a node id having consumed exactly those events, or with a ComposerError (undefined
+   alias, duplicate anchor); never a crash, never short of events, never out of fuel *)
+Theorem C03_composer_total : forall es rest base st an fuel,
+  ComposerTotal.clang ComposerTotal.KNode (map Parse.e_kind es) -> List.length es < fuel ->
+  ComposerTotal.good (Construct.compose_node fuel base (ComposerTotal.mkc (es ++ rest) st an)) rest.
+Proof. exact ComposerTotal.composer_total. Qed.
+Eval vm_compute in "ASSUME:C03_composer_total"%string. Print Assumptions C03_composer_total.
+(* KIND C03_parsed_documents_compose : U *)
+(* parser and composer together, EVERY token list: when the parser's run ends normally its events (read in the composer's event
+   type) are STREAM-START, documents, STREAM-END, and in every document the composer started on the root node's events - in any
+   state - cannot crash, run short of events or of fuel *)
+Theorem C03_parsed_documents_compose : forall ts, snd (ParseL.parse_all ts) = Scan.Ok tt ->
+  exists ds, map ComposerTotal.cv (map ParseL.e_kind (fst (ParseL.parse_all ts))) = (Parse.VStreamStart :: ds ++ [Parse.VStreamEnd])%list /\
+             ComposerTotal.docs_composable ds.
+Proof. exact ComposerTotal.parsed_documents_compose. Qed.
+Eval vm_compute in "ASSUME:C03_parsed_documents_compose"%string. Print Assumptions C03_parsed_documents_compose.
+(* KIND C03_composer_nonvacuous : F *)
+(* not vacuous: `[a, &x {k: *x}]` composes to node 1 consuming all 9 events; an alias to an undefined anchor is a ComposerError; and the
+   grammar hypothesis is needed - a sequence that is never closed runs out of events *)
+Example C03_composer_nonvacuous :
+  let m := {| m_index := 0; m_line := 0; m_col := 0 |} in
+  let e k := {| Parse.e_kind := k; Parse.e_start := m; Parse.e_end := m |} in
+  let sc := Parse.VScalar None None true false [97%N] SPlain in
+  let x := [120%N] in
+  let good := [e (Parse.VSeqStart None None true true); e sc; e (Parse.VMapStart (Some x) None true true); e sc; e (Parse.VAlias x); e Parse.VMapEnd; e Parse.VSeqEnd] in
+  (exists id s', Construct.compose_node 8 false (ComposerTotal.mkc (good ++ [e Parse.VStreamEnd]) [] []) = Construct.LOk (id, s') /\ List.length (Construct.evs s') = 1 /\ List.length (Construct.store s') = 4) /\
+  Construct.compose_node 8 false (ComposerTotal.mkc [e (Parse.VAlias x)] [] []) = Construct.LComposer 1 /\
+  Construct.compose_node 8 false (ComposerTotal.mkc [e (Parse.VSeqStart None None true true); e sc] [] []) = Construct.LScan Scan.OutOfFuel.
+Proof. vm_compute. repeat split; eauto. Qed.
+
+(* PARTIAL: scanner_total and error_marks_inside are not proved.  They are
    decided by the scan/parse/compose/reader correspondence on a malformed-input stream (outcome class incl. the class of any
    non-YAML exception must agree with the model) and by the direct run on the implementation under a watchdog. *)
